@@ -8,6 +8,7 @@ returned value = recomputed model decrease of the combined step."""
 import math
 from fractions import Fraction as Fr
 from vf.core import *
+from vf import gentie        # translator G11b: translate/gen_steihaug.py -> coq/gen/SteihaugGen.v (SteihaugGenEq.v: generated = Steihaug.v)
 
 INF = float("inf")
 
@@ -364,7 +365,16 @@ def run(ctx):
                         "reported as C11:zero-gradient-nan-step",
                         "overflow of alpha = r'r/d'Bd (NaN exit) is outside the real-arithmetic theorems: C11_alpha_overflow_nan_refuted; "
                         "random cases keep |B| within 2^-12..2^12 times O(1) spectra so that it is only hit by the dedicated case"]
-    check_properties(ctx)
+    gentie.translate(ctx, gentie.STEIHAUG)         # tie 1: regenerate coq/gen/SteihaugGen.v from core.REPO; status -> ctx.coverage["translator_steihaug"]
+    ok = check_properties(ctx)                     # Properties_C11.v requires SteihaugGenEq.v (generated = hand model, piece by piece)
+    if not ok:
+        gentie.name_obligations(ctx, gentie.STEIHAUG)   # name every SteihaugGenEq obligation that no longer checks
+    gentie.account_eq(ctx, gentie.STEIHAUG, ok)
+    ctx.assumptions += ["translator G11b (gen_steihaug.py): hess_prod(x, out) is `out := B x`; `auto z = v(this->z)` (v = first n rows) and `auto &pa = r` are other "
+                        "names of the same vector; max_iter = (index_t) round(n * max_iter_factor) is an integer parameter of the generated code (the expression "
+                        "must be literally that one); the generated `while (true)` runs with fuel max_iter + 2 (proved sufficient: C11_gen_solve_is_feasible_and_beats_cauchy)",
+                        "generated piece = hand model piece is proved over ideal reals (SteihaugGenEq.v); binary64 agreement of the generated solve with the "
+                        "implementation is checked by Corr_SteihaugGen.chk11g on the direct-call cases (independent of the hand model)"]
     if not build_driver(ctx, "C11"):
         return
     cases = gen_cases(ctx)
@@ -396,6 +406,11 @@ def run(ctx):
                               "n_disagree": len(failing)}))
     elif failing is not None:
         ctx.coverage["correspondence_disagreements"] = 0
+    # translation validation: the GENERATED solve against the same implementation records (direct calls of SteihaugCG::solve)
+    gterms = [t for t, k in zip(terms, idx) if cases[k]["op"] == "cg"]
+    gidx = [k for k in idx if cases[k]["op"] == "cg"]
+    gentie.validate(ctx, gentie.STEIHAUG, "gencorr", "Vec Prox Steihaug SteihaugGenLib SteihaugGen Corr_C11 Corr_SteihaugGen", "c11case", "chk11g", gterms,
+                    "model11g", lambda i: "solve: " + to_input(cases[gidx[i]])[:1500], shard=150)
     # C11 composed with the PANTR loop: Properties_PANTRDIR.v (every direction call of every run of PANTR<NewtonTRDirection> satisfies the
     # guarantees above on its reduced model) + whole runs of the real PANTRSolver<NewtonTRDirection> against PantrDir.v / DirectionsTR.v / Steihaug.v,
     # with THIS oracle (oracle(), Newton-TR branch) on every recorded direction call of the exact-Hessian runs
